@@ -1,21 +1,26 @@
-"""TLC model-checking of the operational models (spec/MC_*.cfg) and extraction of behaviours for
-spec->implementation replay."""
-import os, re, subprocess, time
+"""TLC model-checking of the operational models (spec/MC_*.cfg): every model must pass, every
+deviation twin (spec/MCdev_*.cfg) must FAIL (spec mutants guard against a vacuous model), and
+behaviours are extracted (REPLAY lines) for spec->implementation replay on the real server."""
+import json, os, re, subprocess, time
+from concurrent.futures import ThreadPoolExecutor
+
 from . import run as R
+from .proto import *
 
-MODELS = {}   # property -> list of (model name, cfg, extractor or None); filled in below
+REPLAY_RE = re.compile(r'^<<"REPLAY", "(.*)">>$')
 
 
-def tlc_mc(module, cfg, work, workers=8, timeout=900, extra_env=None, simulate=None):
-    md = os.path.join(work, 'mc_' + os.path.basename(cfg))
+def tlc_mc(module, cfg, work, workers=4, timeout=1500, simulate=None, want_replay=False):
+    md = os.path.join(work, 'mc_' + cfg.replace('.cfg', '') + ('_sim' if simulate else ''))
     os.makedirs(md, exist_ok=True)
-    env = dict(os.environ, JAVA_TOOL_OPTIONS='-Xss512m -Djava.io.tmpdir=' + md)
-    if extra_env:
-        env.update(extra_env)
+    env = dict(os.environ, ERRREF=R.ERRREF, JAVA_TOOL_OPTIONS='-Xss512m -Djava.io.tmpdir=' + md)
     cmd = ['java', '-XX:+UseParallelGC', '-Xmx6g', '-cp', R.JAR, 'tlc2.TLC', '-workers', str(workers), '-metadir', md,
-           '-noGenerateSpecTE', '-nowarning', '-coverage', '1', '-config', os.path.join(R.SPEC, cfg)]
+           '-noGenerateSpecTE', '-nowarning', '-config', os.path.join(R.SPEC, cfg)]
     if simulate:
-        cmd += ['-simulate', simulate]
+        cmd += ['-simulate', simulate[0], '-depth', str(simulate[1])]
+    elif module not in ('MC_Writer', 'MC_Codec', 'MC_Robust'):
+        # (coverage bookkeeping exhausts the heap on the models that embed the 886-entry error table)
+        cmd += ['-coverage', '1']
     cmd += [os.path.join(R.SPEC, module + '.tla')]
     t0 = time.time()
     try:
@@ -25,20 +30,227 @@ def tlc_mc(module, cfg, work, workers=8, timeout=900, extra_env=None, simulate=N
     out = r.stdout
     m = re.search(r'(\d+) states generated, (\d+) distinct states found', out)
     gen, distinct = (int(m.group(1)), int(m.group(2))) if m else (0, 0)
-    ok = 'Model checking completed. No error has been found.' in out
-    violated = re.search(r'Error: Invariant (\S+) is violated', out) or re.search(r'is violated', out)
-    return dict(ok=ok, violated=bool(violated), generated=gen, distinct=distinct, out=out, wall=time.time() - t0)
+    if simulate and not m:
+        m2 = re.search(r'(\d+) states checked', out)
+        gen = distinct = int(m2.group(1)) if m2 else 0
+    ok = 'Model checking completed. No error has been found.' in out or (simulate and 'Error:' not in out and 'is violated' not in out)
+    violated = 'is violated' in out or 'Deadlock reached' in out
+    evalerr = ('Error:' in out) and not violated
+    replays = []
+    if want_replay:
+        for ln in out.split('\n'):
+            mm = REPLAY_RE.match(ln.strip())
+            if mm:
+                replays.append(json.loads(json.loads('"' + mm.group(1) + '"')))
+    # actions never taken (vacuity guard) - only for BFS runs with coverage
+    untaken = []
+    if not simulate:
+        for mm in re.finditer(r'^<(\w+) line .*>: (\d+):(\d+)$', out, re.M):
+            if mm.group(1) not in ('Init',) and int(mm.group(3)) == 0:
+                untaken.append(mm.group(1))
+    import shutil
+    shutil.rmtree(md, ignore_errors=True)
+    return dict(name=cfg.replace('.cfg', ''), cfg=cfg, module=module, ok=bool(ok), violated=violated, evalerr=evalerr, generated=gen, distinct=distinct,
+                wall=round(time.time() - t0, 1), replays=replays, untaken=untaken, tail=out[-1500:])
+
+
+# (module, cfg, expect)   expect: 'pass' | 'fail'
+def models_for(pid, tier):
+    deep = tier != 'quick'
+    M = {
+        'C01': [('MC_Reader', 'MC_Reader_deep.cfg' if deep else 'MC_Reader.cfg', 'pass'), ('MC_Reader', 'MC_Reader_trunc.cfg', 'pass'),
+                ('MC_Reader', 'MCdev_Reader_nodrain.cfg', 'fail'), ('MC_Reader', 'MCdev_Reader_stale.cfg', 'fail')],
+        'C02': [('MC_Robust', 'MC_Robust.cfg', 'pass'), ('MC_Flow', 'MC_Flow.cfg', 'pass')],
+        'C03': [('MC_Writer', 'MC_Writer_deep.cfg' if deep else 'MC_Writer.cfg', 'pass'), ('MC_Writer', 'MCdev_Writer_more.cfg', 'fail'),
+                ('MC_Writer', 'MCdev_Writer_eof0.cfg', 'fail')],
+        'C04': [('MC_Framer', 'MC_Framer_deep.cfg' if deep else 'MC_Framer.cfg', 'pass'), ('MC_Framer', 'MC_Framer_p5.cfg', 'pass'),
+                ('MC_Framer', 'MCdev_Framer_header.cfg', 'fail'), ('MC_Framer', 'MCdev_Framer_closer.cfg', 'fail')],
+        'C05': [('MC_Framer', 'MC_Framer.cfg', 'pass')],
+        'C06': [('MC_Codec', 'MC_Codec.cfg', 'pass')],
+        'C07': [('MC_Codec', 'MC_Codec.cfg', 'pass')],
+        'C08': [('MC_Codec', 'MC_Codec.cfg', 'pass'), ('MC_Stmts', 'MC_Stmts.cfg', 'pass')],
+        'C09': [('MC_Codec', 'MC_Codec.cfg', 'pass')],
+        'C10': [('MC_Stmts', 'MC_Stmts_deep.cfg' if deep else 'MC_Stmts.cfg', 'pass'), ('MC_Stmts', 'MCdev_Stmts_noremove.cfg', 'fail'),
+                ('MC_Stmts', 'MCdev_Stmts_stale.cfg', 'fail')],
+        'C11': [('MC_Flow', 'MC_Flow.cfg', 'pass'), ('MC_Flow', 'MCdev_Flow_nogate.cfg', 'fail')],
+        'C12': [('MC_Flow', 'MC_Flow_deep.cfg' if deep else 'MC_Flow.cfg', 'pass'), ('MC_Flow', 'MC_Flow_live.cfg', 'pass'),
+                ('MC_Flow', 'MCdev_Flow_noflush.cfg', 'fail'), ('MC_Reader', 'MC_Reader.cfg', 'pass')],
+        'C13': [('MC_Codec', 'MC_Codec.cfg', 'pass')],
+        'C14': [('MC_Codec', 'MC_Codec.cfg', 'pass')],
+        'C15': [('MC_Codec', 'MC_Codec.cfg', 'pass')],
+        'C16': [('MC_Stmts', 'MC_Stmts_deep.cfg' if deep else 'MC_Stmts.cfg', 'pass'), ('MC_Stmts', 'MCdev_Stmts_flag.cfg', 'fail')],
+        'C17': [('MC_Stmts', 'MC_Stmts_deep.cfg' if deep else 'MC_Stmts.cfg', 'pass'), ('MC_Stmts', 'MCdev_Stmts_noclear.cfg', 'fail')],
+        'C18': [('MC_Tls', 'MC_Tls.cfg', 'pass'), ('MC_Tls', 'MCdev_Tls_keep.cfg', 'fail'), ('MC_Tls', 'MCdev_Tls_nothing.cfg', 'fail'),
+                ('MC_Tls', 'MCdev_Tls_fromstart.cfg', 'fail')],
+        'C19': [('MC_Flow', 'MC_Flow_faults.cfg', 'pass'), ('MC_Reader', 'MC_Reader_trunc.cfg', 'pass'), ('MC_Flow', 'MCdev_Flow_swallow.cfg', 'fail'),
+                ('MC_Reader', 'MCdev_Reader_eof.cfg', 'fail')],
+        'C20': [('MC_Robust', 'MC_Robust_deep.cfg' if deep else 'MC_Robust.cfg', 'pass')],
+    }
+    return M.get(pid, [])
+
+
+# ---- behaviours -> scenarios ----------------------------------------------------------------
+def writer_scenarios(replays, tag):
+    out = []
+    for i, r in enumerate(replays):
+        ops = [x['op'] for x in r['prog']]
+        expect = [x['res'] for x in r['prog']]
+        c = Conv('%s-mcw-%05d' % (tag, i), mode='lockstep' if i % 2 else 'pipelined',
+                 meta={'origin': 'tlc-behaviour', 'model': 'MC_Writer', 'expect_res': expect, 'outcome': r['outcome']})
+        if r['bin']:
+            c.prepare('S', prep_ok(1, [], []))
+            c.execute(1, [], ops)
+        else:
+            c.query('Q', ops)
+        c.ping()
+        c.quit()
+        out.append(c.build())
+    return out
+
+
+def stmts_scenarios(replays, tag):
+    out = []
+    inline = {1: 5, 8: 0x0807060504030201}
+    for i, r in enumerate(replays):
+        c = Conv('%s-mcs-%05d' % (tag, i), mode='lockstep' if i % 2 else 'pipelined',
+                 meta={'origin': 'tlc-behaviour', 'model': 'MC_Stmts', 'result': r['result']})
+        pend = {}
+        for h in r['hist']:
+            op = h['op']
+            if op == 'prepare':
+                c.prepare('S%d' % h['id'], prep_ok(h['id'], [col('p%d' % k, T_VAR_STRING) for k in range(h['np'])], []))
+                pend[h['id']] = set()
+            elif op == 'prepare_err':
+                c.prepare('BAD', prep_err('ER_PARSE_ERROR'))
+            elif op == 'close':
+                c.cmd(com_close(h['id']))
+                pend.pop(h['id'], None)
+            elif op == 'long':
+                c.cmd(com_long_data(h['id'], h['p'], bytes(h['chunk'])))
+                if h['id'] in pend:
+                    pend[h['id']].add(h['p'])
+            elif op == 'execute':
+                ps = []
+                for k, t in enumerate(h['types']):
+                    ty, uns = t['ty'], t['uns']
+                    if h['nulls'][k]:
+                        ps.append(p_null(ty, uns))
+                    elif k in pend.get(h['id'], set()):
+                        ps.append(dict(ty=ty, uns=uns, long=True, enc=[]))
+                    elif ty == 253:
+                        ps.append(p_bytes(ty, b'ab'))
+                    else:
+                        ps.append(p_int(ty, inline[ty], uns))
+                c.execute(h['id'], ps, [op_completed(1, 0)], rebind=h['rebind'])
+                if h['id'] in pend:
+                    pend[h['id']] = set()
+        c.ping()
+        if r['result'] == 'running':
+            c.quit()
+        out.append(c.build())
+    return out
+
+
+def flow_scenarios(replays, tag, rng):
+    out = []
+    for i, r in enumerate(replays):
+        c = Conv('%s-mcf-%05d' % (tag, i), mode=r['mode'], auth='accept' if r['authOk'] else 'reject',
+                 meta={'origin': 'tlc-behaviour', 'model': 'MC_Flow', 'result': r['result']})
+        has_long = 'longdata' in r['script']
+        sizes = [len(c.msgs[0]['b'])]
+        if has_long:
+            if r['authOk']:
+                c.prepare('S', prep_ok(5, [col('p', T_BLOB)], []))
+            else:
+                c.cmd(com_prepare('S'))
+            sizes[0] += len(c.msgs[-1]['b'])
+        for k in r['script']:
+            if k == 'ping':
+                c.ping()
+            elif k == 'query':
+                c.query('Q', [op_completed(1, 1)] if r['authOk'] else None)
+            elif k == 'close':
+                c.cmd(com_close(77))
+            elif k == 'longdata':
+                c.cmd(com_long_data(5, 0, b'xy'))
+            elif k == 'quit':
+                c.quit()
+            sizes.append(len(c.msgs[-1]['b']))
+        # reads as the model grouped them (pipelined): cut positions at group ends
+        if r['mode'] == 'pipelined':
+            groups = [int(h[4:]) for h in r['hist'] if h.startswith('read')]
+            cuts, pos, idx = [], 0, 0
+            for g in groups:
+                for _ in range(g):
+                    if idx < len(sizes):
+                        pos += sizes[idx]
+                        idx += 1
+                cuts.append(pos)
+            sc = c.build()
+            sc['transport']['cuts'] = sorted(set(x for x in cuts if x > 0))
+        else:
+            sc = c.build()
+        out.append(sc)
+    return out
 
 
 def run_models(pid, tier, work, jobs, rng):
-    info = {'states': 0, 'transitions': 0, 'models': [], 'exhaustive': False}
+    specs = models_for(pid, tier)
+    info = {'states': 0, 'transitions': 0, 'models': [], 'exhaustive': bool(specs)}
     s2i = []
-    for spec in MODELS.get(pid, []):
-        res, scen = spec(tier, work, jobs, rng)
-        for r in res:
+    tasks = []
+    with ThreadPoolExecutor(max_workers=4) as ex:
+        futs = [(expect, ex.submit(tlc_mc, module, cfg, work, 4)) for module, cfg, expect in specs]
+        # behaviour extraction
+        emit = []
+        if pid == 'C03':
+            emit.append(('writer', ex.submit(tlc_mc, 'MC_Writer', 'MC_Writer_emit4.cfg' if tier != 'quick' else 'MC_Writer_emit.cfg', work, 1, 1500, None, True)))
+        if pid in ('C10', 'C16', 'C17', 'C08'):
+            n = 120 if tier == 'quick' else 1500
+            emit.append(('stmts', ex.submit(tlc_mc, 'MC_Stmts', 'MC_Stmts_sim.cfg', work, 1, 1500, ('num=%d' % n, 14), True)))
+        if pid in ('C12', 'C11', 'C02'):
+            emit.append(('flow', ex.submit(tlc_mc, 'MC_Flow', 'MC_Flow_emit.cfg', work, 1, 1500, None if tier != 'quick' else ('num=400', 60), True)))
+        for expect, f in futs:
+            r = f.result()
+            r['expect'] = expect
+            if r['evalerr']:
+                raise R.ToolError('TLC evaluation error in %s:\n%s' % (r['cfg'], r['tail']))
+            if expect == 'pass' and not r['ok']:
+                raise R.ToolError('model %s does not satisfy its properties:\n%s' % (r['cfg'], r['tail']))
+            if expect == 'fail' and not r['violated']:
+                raise R.ToolError('deviation model %s did not produce a violation (vacuous specification?)' % r['cfg'])
+            if expect == 'pass' and r['untaken']:
+                raise R.ToolError('model %s: actions never taken: %s' % (r['cfg'], r['untaken']))
             info['states'] += r['distinct']
             info['transitions'] += r['generated']
-            info['models'].append({k: r[k] for k in ('name', 'cfg', 'distinct', 'generated', 'wall', 'expect', 'constants') if k in r})
-        info['exhaustive'] = True
-        s2i.extend(scen)
+            info['models'].append({k: r[k] for k in ('name', 'module', 'distinct', 'generated', 'wall', 'expect')})
+        for kind, f in emit:
+            r = f.result()
+            if r['evalerr'] or r['violated']:
+                raise R.ToolError('behaviour extraction failed for %s:\n%s' % (r['cfg'], r['tail']))
+            reps = r['replays']
+            if kind == 'writer':
+                s2i += writer_scenarios(reps, pid)
+            elif kind == 'stmts':
+                # de-duplicate histories
+                seen, uniq = set(), []
+                for x in reps:
+                    k = json.dumps(x, sort_keys=True)
+                    if k not in seen and len(x['hist']) >= 2:
+                        seen.add(k)
+                        uniq.append(x)
+                s2i += stmts_scenarios(uniq[:400 if tier == 'quick' else 5000], pid)
+            elif kind == 'flow':
+                seen, uniq = set(), []
+                for x in reps:
+                    k = json.dumps([x['script'], x['mode'], x['authOk'], [h for h in x['hist'] if h.startswith('read')]])
+                    if k not in seen:
+                        seen.add(k)
+                        uniq.append(x)
+                if tier == 'quick':
+                    rng.shuffle(uniq)
+                    uniq = uniq[:300]
+                s2i += flow_scenarios(uniq, pid, rng)
+            info['models'].append({'name': r['name'] + ' (behaviours)', 'module': r['module'], 'distinct': r['distinct'], 'generated': r['generated'],
+                                   'wall': r['wall'], 'expect': 'emit', 'behaviours': len(reps)})
     return info, s2i
